@@ -10,7 +10,7 @@ from . import core
 from . import format_common as F
 from .core import Check, exc_code, h63_list
 
-IMPORTS = ["Base.Prelude", "Psd.Codec", "Psd.Model", "Psd.Leaf", "Psd.Descriptor", "Psd.Effects", "Psd.Patterns", "Psd.Struct", "Psd.Adjust", "Psd.Vector", "Psd.Corr"]
+IMPORTS = ["Base.Prelude", "Psd.Codec", "Psd.Model", "Psd.Leaf", "Psd.Descriptor", "Psd.Effects", "Psd.Patterns", "Psd.Struct", "Psd.Adjust", "Psd.Vector", "Psd.Linked", "Psd.Corr"]
 KINDS = ["header", "cmd", "res", "resources", "tb", "tbs", "mask", "ranges", "rec", "li", "glmi", "lami", "img", "psd"]
 FIXTURES = os.path.join(core.REPO, "tests", "psd_files")
 
@@ -1011,6 +1011,69 @@ def run():
     for i in bad[:5]:
         ck.notes.append("VectorStrokeContentSetting model/implementation differ: impl %r" % (vscases[i][1],))
 
+    # ---- (a10) Stage 3 (3): linked layers - LinkedLayers of generated items (every kind x version 1..7, contradictory
+    #      structures included) and every LinkedLayers object of the fixtures
+    from psd_tools.psd import linked_layer as _LL
+    from psd_tools.constants import LinkedLayerType as _LT
+
+    try:
+        ck.coq_eval("Gen_LinkedTables", "From Coq Require Import ZArith List.\nImport ListNotations.\nOpen Scope Z_scope.\n"
+                    "Lemma gen_linked_kinds_agree : %s = model_linked_kinds. Proof. vm_compute. reflexivity. Qed.\n"
+                    % ("[" + ";".join("(%d)%%Z" % F.fcc(x.value) for x in _LT) + "]"),
+                    ["Base.Prelude", "Psd.Codec", "Psd.Model", "Psd.Descriptor", "Psd.Struct", "Psd.Linked"], timeout=300)
+        ck.obligations.append(("generated-linked-layer-tables-agree", True, ""))
+    except Exception as e:
+        ck.obligations.append(("generated-linked-layer-tables-agree", False, str(e)[-500:]))
+    llcases = []
+    terms_ll, units_ll = F.descriptor_env()
+    cu_ll, ct_ll = F.coq_env(terms_ll, units_ll)
+
+    def one_ll(lst, origin):
+        out, info = F.run_linked(lst, exc_code)
+        if out is None:
+            ck.count("linked-not-constructible")
+            return
+        if out == [99]:
+            ck.count("linked:ill-typed")              # AttributeError: a field the branch dereferences is None
+            return
+        llcases.append((lst, out))
+        ck.count("linked:%s" % origin)
+        for l in lst:
+            ck.count("linked-item:%s:v%d" % (l[0].to_bytes(4, "big").decode("ascii"), l[1]))
+        if info["stage"] == "write":
+            return
+        ck.nontriv(("linked", h63_list(0, list(info["bytes"]))))
+        if info["written"] != len(info["bytes"]):
+            ck.fail("written-count-linked-layers", {"linked": jdeep(lst)}, info["written"], len(info["bytes"]))
+        if all(F.wf_linked(l) for l in lst):
+            if info["stage"] == "read" or not (info["eq"] and info["same_canon"]):
+                ck.fail("linked-layers-roundtrip", {"linked": jdeep(lst)},
+                        "raised %r" % info["err"] if info["stage"] else "re-read != original", "X.frombytes(x.tobytes()) == x")
+            elif not info["rewrite_same"]:
+                ck.fail("linked-layers-rewrite", {"linked": jdeep(lst)}, "re-written bytes differ", "identical bytes")
+
+    for i in range(2500 if thorough else 260):
+        one_ll([F.g_linked(rng, terms_ll, units_ll, wf=rng.random() < 0.75) for _ in range(rng.choice([0, 1, 1, 2, 3]))], "generated")
+    nfl = 0
+    for pth in fixture_paths(1 << 40 if thorough else 300000):
+        try:
+            doc = PSD.frombytes(open(pth, "rb").read())
+        except Exception:
+            continue
+        for x in BaseElement_traverse(doc, (_LL.LinkedLayers,)):
+            try:
+                lst = [F.linked_of_obj(y) for y in x]
+            except Exception:
+                ck.count("linked:fixture:outside-model")
+                continue
+            if sum(len(l[10] or b"") for l in lst) <= (4000000 if thorough else 200000) and nfl < (500 if thorough else 40):
+                one_ll(lst, "fixture")
+                nfl += 1
+    fn = "let units := %s in let terms := %s in linked_outcome units terms" % (cu_ll, ct_ll)
+    bad = ck.correspond("linked_layers", fn, IMPORTS, llcases, lambda l: F.coq_list(F.coq_linked, l), chunk=40)
+    for i in bad[:5]:
+        ck.notes.append("LinkedLayers model/implementation differ on %r: impl %r" % (str(llcases[i][0])[:400], llcases[i][1]))
+
     # ---- (b) fixtures: implementation reads and re-writes; the model reads the same bytes
     from psd_tools.psd import PSD
 
@@ -1147,6 +1210,8 @@ def run():
                 "BrightnessContrast", "ColorBalance", "Exposure", "HueSaturation", "SelectiveColor", "PhotoFilter", "ChannelMixer",
                 "Levels", "LevelRecord", "Curves", "CurvesExtraMarker", "CurvesExtraItem", "GradientMap", "ColorStop",
                 "TransparencyStop", "ColorLookup",
+                # linked layers (Psd/Linked.v)
+                "LinkedLayers", "LinkedLayer",
                 # vector paths (Psd/Vector.v)
                 "VectorMaskSetting", "Subpath", "ClosedPath", "OpenPath", "Knot", "ClosedKnotLinked", "ClosedKnotUnlinked",
                 "OpenKnotLinked", "OpenKnotUnlinked", "PathFillRule", "ClipboardRecord", "InitialFillRule", "VectorStrokeContentSetting",
